@@ -496,4 +496,38 @@ theorem source_call_runtime : LowerOrder.callRuntime = [
   "Value::CallRuntime{func_ref:v0,args:v1,mir_signature:v2,vtables:v3}"
 ] := rfl
 
+/-- `lirCall` — `Lowerer::call` of the MIR → LIR lowering (src/lir/lower.rs), one stage below the
+    model: return slot / temporary, the arguments in order (`loop` over them, zero-sized ones
+    filtered out), then exactly ONE `self.emit(Instruction::Call{..})`, outside every loop — what
+    `C08Lir.assignCalls` assumes of the `.operand` arm of a call value. -/
+theorem source_lir_call : LowerOrder.lirCall = [
+  "v0=self.is_reference_type(v1)",
+  "match(v0)",
+  "arm(Some(true))",
+  "self.layout_of(v1)",
+  "v2=self.new_stack_slot(v3)",
+  "arm(Some(false))",
+  "self.lower_type(v1)",
+  "closure",
+  "self.new_tmp(v4)",
+  "endclosure",
+  "self.lower_type(v1).map",
+  "arm(_)",
+  "endmatch",
+  "closure",
+  "self.lower_type(v5)",
+  "self.lower_type(v5).map",
+  "endclosure",
+  "v6.into_iter().zip(v7.parameter_types).filter_map",
+  "loop(v8)",
+  "self.var(v9)",
+  "endloop",
+  "self.emit(Instruction::Call{to:v10.clone(),ctx:Some(v11.into()),func:v12,args:v13,return_ptr:v14.clone(),})",
+  "match(v14)",
+  "arm(Some(_))",
+  "arm(_)",
+  "v10.map",
+  "endmatch"
+] := rfl
+
 end RotoV.C08Source
